@@ -46,10 +46,12 @@ void h_b64_char(void) {
 }
 
 /* ------------------------------------------------------------------ the encoding tables against the RFC 4648 alphabets (all values) */
+uint8_t r_c; /* replay variable: the character under test */
 void h_tables(void) {
     GHOST_RESET_ENC();
     uint8_t v = nondet_u8();
     uint8_t c = nondet_u8();
+    r_c = c;
     __CPROVER_assert(sizeof(BASE64_ENCODING_TABLE) == 65, "base64 encoding table has 64 entries (+NUL)");
     if (v < 64) {
         __CPROVER_assert(BASE64_ENCODING_TABLE[v] == SPEC_B64_CHAR(v), "base64 encoding table is the RFC 4648 standard alphabet");
